@@ -217,7 +217,9 @@ def run_case(case, ref, timeout=240):
         # ---- file system
         d = clilib.snapshot_diff(before, after, ignore_dir_mtime=False)
         if d:
-            finding("fs-snapshot", "C17:fs-changed:" + d[0][1], f"scratch area changed: {d[:5]}")
+            rank = ["created", "deleted", "content", "kind", "inode", "mode", "mtime"]
+            worst = min((x[1] for x in d), key=rank.index)
+            finding("fs-snapshot", "C17:fs-changed:" + worst, f"scratch area changed: {d[:5]}")
         if use_strace:
             # anywhere in the file system, not only below the scratch area (terminals and /proc are not files)
             w = [e for e in (run.events or []) if e["write_intent"]
@@ -461,7 +463,7 @@ def build_workload(tier, seed, ref):
     # ---- seeded
     rng = clilib.Rng(seed * 1000003 + 17)
     P = placements()
-    for j in range(1200 if quick else 6000):
+    for j in range(1200 if quick else 15000):
         name, text = rng.pick(corpus)
         b = text.encode("utf-8")
         v = rng.below(6)
